@@ -180,9 +180,9 @@ fn scan_disk(l: &mut LogInner) -> DiskSnap {
             let md2 = e.metadata().ok();
             if let Some(m2) = md2 { l.disk_cache.insert(name.clone(), (m2.len(), m2.modified().unwrap_or(std::time::UNIX_EPOCH), true)); }
             snap.valid.push(idx.unwrap());
-        } else {
+        } else if e.path().exists() {
             snap.invalid.push((name, md.len()));
-        }
+        } // else: gone meanwhile (a temporary file that was renamed): nothing is stored under that name
     }
     snap.valid.sort();
     snap
